@@ -45,7 +45,7 @@ func Clean(v any) any {
 
 // CellCanon is the canonical rendering of a received DataRow field of the
 // given type in the given format, decoded by the harness's own decoders.
-var CellCanon = func(oid int, format int, raw []byte) string { return pgw.Dig(raw) }
+var CellCanon func(oid int, format int, raw []byte) string
 
 // Projector turns the raw event log of one connection into the abstract
 // trace of the specification: the server's byte stream is framed and decoded
@@ -61,6 +61,11 @@ type Projector struct {
 	SkipPre   bool // replace the startup/auth/parameter preamble by one synthetic event (preamble rule)
 	preDone   bool
 	preMsg    M
+	// extended-protocol bookkeeping for decoding rows (valid when Parse/Bind/Execute are not pipelined)
+	stmtCols  map[string][]any
+	portals   map[string][2][]any
+	pendP     *[2]any
+	pendB     *[3]any
 	Out       []M
 	TLS       bool // after 'S': the raw stream is TLS records; protocol messages come from the TLS client
 	wireBytes int
@@ -95,8 +100,34 @@ func (p *Projector) Feed(e mem.Ev) {
 	switch e["k"] {
 	case "send":
 		m := AsM(e["m"])
-		if S(m, "t") == "SSLRequest" {
+		switch S(m, "t") {
+		case "SSLRequest":
 			p.sslWait++
+		case "P":
+			var oids []any
+			if sts := L(Sub(m, "q"), "stmts"); len(sts) == 1 {
+				for _, cv := range L(AsM(sts[0]), "cols") {
+					oids = append(oids, I(AsM(cv), "oid"))
+				}
+			}
+			p.pendP = &[2]any{S(m, "name"), oids}
+		case "B":
+			p.pendB = &[3]any{S(m, "portal"), S(m, "stmt"), L(m, "rfmt")}
+		case "E":
+			if pt, ok := p.portals[S(m, "portal")]; ok {
+				oids, codes := pt[0], pt[1]
+				fmts := make([]any, len(oids))
+				for i := range oids {
+					f := 0
+					if len(codes) == 1 {
+						f = AsInt(codes[0])
+					} else if i < len(codes) {
+						f = AsInt(codes[i])
+					}
+					fmts[i] = f
+				}
+				p.lastCols, p.lastFmts = oids, fmts
+			}
 		}
 		p.Out = append(p.Out, M{"k": "send", "m": Clean(m)})
 	case "write":
@@ -174,6 +205,24 @@ func fatalSev(s string) bool { return s == "FATAL" || s == "PANIC" }
 func (p *Projector) abstract(m pgw.Msg) M {
 	r := pgw.Decode(m)
 	switch m.Type {
+	case '1':
+		if p.pendP != nil {
+			if p.stmtCols == nil {
+				p.stmtCols = map[string][]any{}
+			}
+			oids, _ := p.pendP[1].([]any)
+			p.stmtCols[p.pendP[0].(string)] = oids
+			p.pendP = nil
+		}
+	case '2':
+		if p.pendB != nil {
+			if p.portals == nil {
+				p.portals = map[string][2][]any{}
+			}
+			codes, _ := p.pendB[2].([]any)
+			p.portals[p.pendB[0].(string)] = [2][]any{p.stmtCols[p.pendB[1].(string)], codes}
+			p.pendB = nil
+		}
 	case 'T':
 		p.lastCols, _ = r["oids"].([]any)
 		p.lastFmts, _ = r["fmts"].([]any)
@@ -194,7 +243,8 @@ func (p *Projector) abstract(m pgw.Msg) M {
 			if i < len(p.lastFmts) {
 				f = AsInt(p.lastFmts[i])
 			}
-			out[i] = M{"null": false, "empty": I(c, "len") == 0, "val": CellCanon(oid, f, raws[i])}
+			canon, enc := DecodeCell(oid, f, raws[i])
+			out[i] = M{"null": false, "empty": I(c, "len") == 0, "val": canon, "enc": enc}
 		}
 		r["cells"] = out
 	case 'E', 'N':
